@@ -134,7 +134,10 @@ static void run_cmd(const sim::Cmd &c, sim::Out &out)
     cnt.inc(r == 0 ? "p7.z3_confirms_unsat" : (r == 1 ? "p7.z3_sat" : "p7.not_decidable_here"));
     if (r == 1)
     {
-      PViolation v{"P7", "P7.unsolvable_but_sat", "the planner answered '" + how + "' but the problem has a solution, e.g. " + one_line(z.model).substr(0, 300)};
+      std::string problem;
+      for (int u = 0; u < units_read && u < static_cast<int>(b.units.size()); ++u)
+        problem += b.units[u] + " ";
+      PViolation v{"P7", "P7.unsolvable_but_sat", "the planner answered '" + how + "' but the problem has a solution, e.g. " + one_line(z.model).substr(0, 300) + " | problem: " + one_line(problem).substr(0, 500)};
       (enabled_for(prop, v) ? viols : others).push_back(v);
     }
     ended = true;
